@@ -177,7 +177,7 @@ func (fi *FuncInfo) withHelperSuccess(cs []Cond) []Cond {
 		var best *defSite
 		for i := range fi.defs[v] {
 			d := &fi.defs[v][i]
-			if d.node != nil && d.node.Pos() < g.At.End() && (best == nil || d.node.Pos() > best.node.Pos()) {
+			if d.node != nil && startOf(d.node) < endOf(g.At) && (best == nil || startOf(d.node) > startOf(best.node)) {
 				best = d
 			}
 		}
@@ -583,4 +583,49 @@ func (fi *FuncInfo) searchTest(g Cond) (v *types.Var, found, ok bool) {
 		found = !found
 	}
 	return v, found, true
+}
+
+// evalCond evaluates a condition built from !, && and || over atoms that the
+// caller names (atom returns the atom's name and whether the expression
+// asserts it or its negation); ok is false when a leaf is not an atom.
+func evalCond(e ast.Expr, env map[string]bool, atom func(ast.Expr) (string, bool)) (val, ok bool) {
+	e = ast.Unparen(e)
+	if u, isU := e.(*ast.UnaryExpr); isU && u.Op == token.NOT {
+		v, ok := evalCond(u.X, env, atom)
+		return !v, ok
+	}
+	if be, isB := e.(*ast.BinaryExpr); isB && (be.Op == token.LAND || be.Op == token.LOR) {
+		x, ok1 := evalCond(be.X, env, atom)
+		y, ok2 := evalCond(be.Y, env, atom)
+		if !ok1 || !ok2 {
+			return false, false
+		}
+		if be.Op == token.LAND {
+			return x && y, true
+		}
+		return x || y, true
+	}
+	if n, pos := atom(e); n != "" {
+		return env[n] == pos, true
+	}
+	return false, false
+}
+
+// evalGuards is the conjunction of a list of guards under env.
+func evalGuards(gs []Cond, env map[string]bool, atom func(ast.Expr) (string, bool)) (val, ok bool) {
+	val = true
+	for _, g := range gs {
+		if g.Kind != "bool" {
+			return false, false
+		}
+		v, ok := evalCond(g.Expr, env, atom)
+		if !ok {
+			return false, false
+		}
+		if g.Neg {
+			v = !v
+		}
+		val = val && v
+	}
+	return val, true
 }
